@@ -185,11 +185,20 @@ func execC02Bubble(r *kernel.Run, s C02Spec) {
 				}
 				return nonce
 			}
-			base(wh+"+1", wh, func(c, n **big.Int, _ *bool, _ *[]*gabikeys.PublicKey, _ *[]string) { p := sel(c, n); *p = new(big.Int).Add(*p, one) })
+			base(wh+"+1", wh, func(c, n **big.Int, _ *bool, _ *[]*gabikeys.PublicKey, _ *[]string) {
+				p := sel(c, n)
+				*p = new(big.Int).Add(*p, one)
+			})
 			if (*sel(&o.Sess.Context, &o.Sess.Nonce)).Sign() > 0 {
-				base(wh+"-1", wh, func(c, n **big.Int, _ *bool, _ *[]*gabikeys.PublicKey, _ *[]string) { p := sel(c, n); *p = new(big.Int).Sub(*p, one) })
+				base(wh+"-1", wh, func(c, n **big.Int, _ *bool, _ *[]*gabikeys.PublicKey, _ *[]string) {
+					p := sel(c, n)
+					*p = new(big.Int).Sub(*p, one)
+				})
 			}
-			base(wh+"=0", wh, func(c, n **big.Int, _ *bool, _ *[]*gabikeys.PublicKey, _ *[]string) { p := sel(c, n); *p = big.NewInt(0) })
+			base(wh+"=0", wh, func(c, n **big.Int, _ *bool, _ *[]*gabikeys.PublicKey, _ *[]string) {
+				p := sel(c, n)
+				*p = big.NewInt(0)
+			})
 			for _, bit := range []int{0, 7, 8, (*sel(&o.Sess.Context, &o.Sess.Nonce)).BitLen() - 1, (*sel(&o.Sess.Context, &o.Sess.Nonce)).BitLen() + 8} {
 				if bit < 0 {
 					continue
@@ -201,7 +210,10 @@ func execC02Bubble(r *kernel.Run, s C02Spec) {
 					*p = v.SetBit(v, b, v.Bit(b)^1)
 				})
 			}
-			base(wh+"<<8", wh, func(c, n **big.Int, _ *bool, _ *[]*gabikeys.PublicKey, _ *[]string) { p := sel(c, n); *p = new(big.Int).Lsh(*p, 8) })
+			base(wh+"<<8", wh, func(c, n **big.Int, _ *bool, _ *[]*gabikeys.PublicKey, _ *[]string) {
+				p := sel(c, n)
+				*p = new(big.Int).Lsh(*p, 8)
+			})
 		}
 		base("context<->nonce", "swap-context-nonce", func(c, n **big.Int, _ *bool, _ *[]*gabikeys.PublicKey, _ *[]string) { *c, *n = *n, *c })
 		base("flag", "issig", func(_, _ **big.Int, sig *bool, _ *[]*gabikeys.PublicKey, _ *[]string) { *sig = !*sig })
@@ -218,8 +230,12 @@ func execC02Bubble(r *kernel.Run, s C02Spec) {
 			}
 		}
 		if n >= 2 {
-			base("keys-swapped", "key-permutation", func(_, _ **big.Int, _ *bool, ks *[]*gabikeys.PublicKey, _ *[]string) { (*ks)[0], (*ks)[n-1] = (*ks)[n-1], (*ks)[0] })
-			base("proofs-swapped", "proof-permutation", func(_, _ **big.Int, _ *bool, _ *[]*gabikeys.PublicKey, p *[]string) { (*p)[0], (*p)[n-1] = (*p)[n-1], (*p)[0] })
+			base("keys-swapped", "key-permutation", func(_, _ **big.Int, _ *bool, ks *[]*gabikeys.PublicKey, _ *[]string) {
+				(*ks)[0], (*ks)[n-1] = (*ks)[n-1], (*ks)[0]
+			})
+			base("proofs-swapped", "proof-permutation", func(_, _ **big.Int, _ *bool, _ *[]*gabikeys.PublicKey, p *[]string) {
+				(*p)[0], (*p)[n-1] = (*p)[n-1], (*p)[0]
+			})
 			base("both-swapped", "proof-permutation", func(_, _ **big.Int, _ *bool, ks *[]*gabikeys.PublicKey, p *[]string) {
 				(*p)[0], (*p)[n-1] = (*p)[n-1], (*p)[0]
 				(*ks)[0], (*ks)[n-1] = (*ks)[n-1], (*ks)[0]
